@@ -19,6 +19,9 @@ THEOREMS = [
     {"name": "C03b_refuted_without_start_task / C03b_refuted_after_a_fault", "strength": "R",
      "text": "the hypotheses cannot be dropped: a graph without a root rests in running (replayed on the engine; inspection "
              "rejects such a definition); after a non-expression exception escaped a call the state may be stuck"},
+    {"name": "C03d_quiescent_no_active_slot / C03d_quiescence_refuted_by_D24 (props/C03d.v)", "strength": "R",
+     "text": "WITH items: at a quiescent state no staged table has an active slot; quiescence => resting is REFUTED by finding "
+             "D24 as a theorem (no fault, no wipe, monitor silent, yet canceling forever with nothing in flight)"},
     {"name": "(tested) monitor c03: with-items, retry, loops, reruns, intermediate statuses", "strength": "T",
      "text": "side-effect-free poll of a restored copy at every quiescent point of every history"},
 ]
